@@ -117,34 +117,38 @@ def run(tier):
             good = e
             break
     if good is None:
-        raise vlib.MachineryError('no accepted non-trivial run available for the binding self-test')
-    strip = lambda e: {k: v for k, v in e.items() if k not in ('bam', 'first')}
-    base = [strip(good['bam']), strip(good)]
-    ok = vlib.validate_trace('Trace_BinCounts', vlib.write_ndjson(os.path.join(vlib.scratch(), 'st_base.ndjson'), base),
-                             constants=CONSTS)
-    c.selftest('uncorrupted_pair_is_accepted', not ok['rejects'] and not ok['notes'])
+        if not r['rejects']:
+            raise vlib.MachineryError('no accepted non-trivial run available for the binding self-test')
+        c.extra['binding_selftest_skipped'] = ('no accepted non-trivial run left (%d of %d judged executions rejected by TLC)'
+                                               % (len(r['rejects']), len(judged)))
+    else:
+        strip = lambda e: {k: v for k, v in e.items() if k not in ('bam', 'first')}
+        base = [strip(good['bam']), strip(good)]
+        ok = vlib.validate_trace('Trace_BinCounts', vlib.write_ndjson(os.path.join(vlib.scratch(), 'st_base.ndjson'), base),
+                                 constants=CONSTS)
+        c.selftest('uncorrupted_pair_is_accepted', not ok['rejects'] and not ok['notes'])
 
-    def count_plus_one(evs):
-        evs[1]['counts'][0]['n'] += 1
-        return evs
+        def count_plus_one(evs):
+            evs[1]['counts'][0]['n'] += 1
+            return evs
 
-    def drop_cell(evs):
-        evs[1]['counts'] = evs[1]['counts'][1:]
-        return evs
+        def drop_cell(evs):
+            evs[1]['counts'] = evs[1]['counts'][1:]
+            return evs
 
-    def shift_bin(evs):
-        evs[1]['counts'][0]['bin'][2] += evs[1]['cfg']['bin']
-        evs[1]['counts'][0]['bin'][3] += evs[1]['cfg']['bin']
-        return evs
+        def shift_bin(evs):
+            evs[1]['counts'][0]['bin'][2] += evs[1]['cfg']['bin']
+            evs[1]['counts'][0]['bin'][3] += evs[1]['cfg']['bin']
+            return evs
 
-    def second_run_differs(evs):       # same group, another partition, one count moved: Inv_C12_Invariant / Matrix
-        e2 = json.loads(json.dumps(evs[1]))
-        e2['tid'] += 1
-        e2['counts'][0]['sample'] = 'cellZ'
-        return evs + [e2]
-    for name, mut in [('count_plus_one', count_plus_one), ('drop_cell', drop_cell), ('shift_bin', shift_bin),
-                      ('second_run_differs', second_run_differs)]:
-        vlib.corrupt_selftest(c, 'Trace_BinCounts', base, mut, name, constants=CONSTS)
+        def second_run_differs(evs):       # same group, another partition, one count moved: Inv_C12_Invariant / Matrix
+            e2 = json.loads(json.dumps(evs[1]))
+            e2['tid'] += 1
+            e2['counts'][0]['sample'] = 'cellZ'
+            return evs + [e2]
+        for name, mut in [('count_plus_one', count_plus_one), ('drop_cell', drop_cell), ('shift_bin', shift_bin),
+                          ('second_run_differs', second_run_differs)]:
+            vlib.corrupt_selftest(c, 'Trace_BinCounts', base, mut, name, constants=CONSTS)
 
     c.assumptions += [
         'precondition made explicit: a qualifying record\'s site lies inside its contig and within max_fragment_size of its '
